@@ -42,7 +42,7 @@ func (d *done) goIn(dom, name string, f func()) {
 			if r := recover(); r != nil {
 				d.x.Fail("PANIC", "%s panicked: %v", name, r)
 			}
-			d.x.Data["done:"+name] = true
+			d.x.Put("done:"+name, true)
 		}()
 		f()
 	})
